@@ -745,3 +745,160 @@ def iterations_without_progress(ctx, f):
         if cfg.paths_avoiding(test, test, progress, src_labels={"T"}, skip_exc=True):
             conts = [x for st in loop.body for x in ast.walk(st) if isinstance(x, ast.Continue)]
             yield loop, (conts[0] if conts else loop)
+
+
+# ------------------------------------------------------------------------------------------------------------
+_READ_ONLY_METHODS = {"values", "keys", "items", "get", "copy", "index", "count", "__contains__", "__len__"}
+
+
+def never_filled_registries(ctx, module_prefixes):
+    """Instance attributes `self.X` that a class initialises to an empty container, that some method of the class reads as a collection
+    (iterates, takes .values() / .items() / .keys() of, indexes, tests membership in, measures) — and that nothing can ever fill: no
+    subscript / augmented store, no mutating method, never re-bound to something else, and never handed out (assigned to a name, passed
+    to a call, returned, stored elsewhere), so no alias can fill it either.  Such a reader answers 'nothing' for ever: whatever is derived
+    from it (a distinctness constraint over the registered terms, a declaration list) silently disappears.
+    Yields (class info, attribute, reader FuncInfo, read node, total attributes examined)."""
+    for cq, c in sorted(ctx.p.classes.items()):
+        if not c.module.name.startswith(tuple(module_prefixes)):
+            continue
+        meths = list(c.methods.values()) + list(c.setters.values())
+        empties, other_binds = {}, set()
+        for m in meths:
+            for n in own_nodes(m.node):
+                tg = []
+                if isinstance(n, ast.Assign):
+                    tg = [(t, n.value) for t in n.targets]
+                elif isinstance(n, ast.AnnAssign) and n.value is not None:
+                    tg = [(n.target, n.value)]
+                for t, v in tg:
+                    if isinstance(t, ast.Attribute) and is_name(t.value, "self"):
+                        if _empty_container(v):
+                            empties.setdefault(t.attr, []).append(n)
+                        else:
+                            other_binds.add(t.attr)
+                    elif isinstance(t, (ast.Tuple, ast.List)):
+                        for x in ast.walk(t):
+                            if isinstance(x, ast.Attribute) and is_name(x.value, "self"):
+                                other_binds.add(x.attr)
+        cands = {a for a in empties if a not in other_binds}
+        if not cands:
+            continue
+        # subclasses or other modules touching the attribute through another receiver: the name is then not private to the class
+        foreign = set()
+        for q, f in ctx.p.functions.items():
+            if f.cls is c:
+                continue
+            for n in own_nodes(f.node):
+                if isinstance(n, ast.Attribute) and n.attr in cands:
+                    foreign.add(n.attr)
+        filled, escaped, reads = set(), set(), {}
+        for m in meths:
+            for n in own_nodes(m.node):
+                if not (isinstance(n, ast.Attribute) and is_name(n.value, "self") and n.attr in cands):
+                    continue
+                a, p = n.attr, getattr(n, "_parent", None)
+                if isinstance(n.ctx, (ast.Store, ast.Del)):
+                    continue        # the (empty) bindings themselves
+                if isinstance(p, ast.Subscript) and p.value is n:
+                    if isinstance(p.ctx, (ast.Store, ast.Del)):
+                        filled.add(a)
+                    else:
+                        reads.setdefault(a, []).append((m, n))
+                elif isinstance(p, ast.AugAssign) and p.target is n:
+                    filled.add(a)
+                elif isinstance(p, ast.Attribute) and p.value is n and isinstance(getattr(p, "_parent", None), ast.Call) and p._parent.func is p:
+                    if p.attr in _READ_ONLY_METHODS:
+                        reads.setdefault(a, []).append((m, n))
+                    else:
+                        filled.add(a)       # append / add / update / setdefault / extend / insert / pop ... or anything unknown
+                elif isinstance(p, ast.Compare) and n in p.comparators and all(isinstance(o, (ast.In, ast.NotIn)) for o in p.ops):
+                    reads.setdefault(a, []).append((m, n))
+                elif isinstance(p, (ast.For, ast.comprehension)) and p.iter is n:
+                    reads.setdefault(a, []).append((m, n))
+                elif isinstance(p, ast.Call) and n in p.args and call_name(p) in ("len", "list", "sorted", "set", "tuple", "any", "all", "sum", "enumerate", "bool", "dict", "iter"):
+                    reads.setdefault(a, []).append((m, n))
+                else:
+                    escaped.add(a)          # returned, assigned, passed on: an alias may fill it
+        for a in sorted(cands):
+            if a in filled or a in escaped or a in foreign or a not in reads:
+                yield c, a, None, None
+            else:
+                m, n = reads[a][0]
+                yield c, a, m, n
+
+
+# ------------------------------------------------------------------------------------------------------------
+_LAZY_CALLS = {"map", "filter", "zip", "iter", "reversed", "enumerate"}
+
+
+def _is_lazy(v):
+    """The expression evaluates to a one-shot iterator (Python 3): map / filter / zip / iter / reversed / enumerate(...), a generator expression."""
+    return isinstance(v, ast.GeneratorExp) or (isinstance(v, ast.Call) and isinstance(v.func, ast.Name) and v.func.id in _LAZY_CALLS)
+
+
+def one_shot_iterators_reused(ctx, module_prefixes):
+    """A one-shot iterator that is consulted more than once.  `t = map(...)` (filter, zip, a generator expression) can be walked exactly
+    once; a second membership test, a second loop, or a use in a later call of the function sees an empty sequence — `x in t` then answers
+    False for an element that is there.  Two shapes:
+      (global)  a module global (module level, or assigned under `global`) bound to a one-shot iterator and read by name anywhere;
+      (local)   a local bound once, to a one-shot iterator, and loaded at two or more places, or at one place inside a loop that does
+                not contain the binding.
+    Yields (FuncInfo or None, name, binding node, use node, number of bindings examined)."""
+    for mn, mod in sorted(ctx.p.modules.items()):
+        if not mn.startswith(tuple(module_prefixes)):
+            continue
+        funcs = [f for f in ctx.p.functions.values() if f.module is mod]
+        lazy_globals = {}
+        for st in mod.tree.body:
+            if isinstance(st, ast.Assign) and _is_lazy(st.value):
+                for t in st.targets:
+                    if isinstance(t, ast.Name):
+                        lazy_globals[t.id] = (None, st)
+        for f in funcs:
+            gl = {x for n in own_nodes(f.node) if isinstance(n, ast.Global) for x in n.names}
+            binds = {}
+            for n in own_nodes(f.node):
+                if isinstance(n, ast.Assign) and len(n.targets) == 1 and isinstance(n.targets[0], ast.Name):
+                    binds.setdefault(n.targets[0].id, []).append(n)
+                elif isinstance(n, (ast.AugAssign, ast.AnnAssign)) and isinstance(n.target, ast.Name):
+                    binds.setdefault(n.target.id, []).append(n)
+                elif isinstance(n, (ast.For, ast.comprehension)):
+                    for x in ast.walk(n.target):
+                        if isinstance(x, ast.Name):
+                            binds.setdefault(x.id, []).append(n)
+            for name, bs in sorted(binds.items()):
+                lazy = [b for b in bs if isinstance(b, ast.Assign) and _is_lazy(b.value)]
+                if not lazy:
+                    yield f, name, None, None
+                    continue
+                if name in gl:
+                    lazy_globals[name] = (f, lazy[0])
+                    continue
+                if len(bs) != 1:
+                    yield f, name, None, None        # re-bound (typically `x = list(x)`): not decided here
+                    continue
+                loads = [x for x in own_nodes(f.node) if isinstance(x, ast.Name) and x.id == name and isinstance(x.ctx, ast.Load)]
+                hit = None
+                if len(loads) >= 2:
+                    hit = loads[1]
+                elif len(loads) == 1:
+                    cur = getattr(loads[0], "_parent", None)
+                    while cur is not None and cur is not f.node:
+                        if isinstance(cur, (ast.For, ast.While)) and not any(x is lazy[0] for x in ast.walk(cur)) and not (isinstance(cur, ast.For) and any(x is loads[0] for x in ast.walk(cur.iter))):
+                            hit = loads[0]
+                            break
+                        cur = getattr(cur, "_parent", None)
+                yield f, name, (lazy[0] if hit is not None else None), hit
+        for name, (bf, bnode) in sorted(lazy_globals.items()):
+            use = None
+            for f in funcs:
+                for x in own_nodes(f.node):
+                    if isinstance(x, ast.Name) and x.id == name and isinstance(x.ctx, ast.Load):
+                        use = (f, x)
+                        break
+                if use:
+                    break
+            if use:
+                yield use[0], name, bnode, use[1]
+            else:
+                yield bf, name, None, None
